@@ -1,5 +1,125 @@
 import WuffsVerif.Common.Line
-/-! Line driver for C19 — stub, not built yet. -/
-open WuffsVerif.Line
+import WuffsVerif.Model.Hash
+import WuffsVerif.Model.Png.Uncomp
+import WuffsVerif.Model.Png.Spec
+/-! Line driver for C19 (lib/uncompng).  Stateful: one `Encoder` lives across ops until `reset`.
 
-def main : IO Unit := runPure (fun _ => "bad-op")
+  reset                                          -> ok
+  encode W H STRIDE DEPTH CT PIX [failat:K]      -> STATUS N ITEM*   (N Write calls, one ITEM each)
+        STATUS = ok | invalid-argument | unsupported-size | write-error | panic   (panic prints no items)
+        PIX    = hex | - | seeded:SEED:LEN | fill:XX:LEN
+  specdecode (last | hex)                        -> none | some W H DEPTH CT ITEM(pixels)
+        `last` = concatenation of the Write calls of the previous encode
+  ITEM = lower-case hex when at most 1024 bytes ("-" when empty), else
+         #LEN:ADLER32:CRC32:FNV1A64  (decimal length, hex digests)
+-/
+open WuffsVerif WuffsVerif.Line WuffsVerif.Hash WuffsVerif.Png
+
+namespace C19Driver
+
+def hexN (n width : Nat) : String :=
+  String.ofList ((List.range width).reverse.map (fun i => hexDigit ((n >>> (4 * i)) % 16)))
+
+def fnv1a (a : Array UInt8) : UInt64 :=
+  a.foldl (fun h b => (h ^^^ b.toUInt64) * 0x100000001b3) 0xcbf29ce484222325
+
+def hexArr (a : Array UInt8) : String :=
+  if a.isEmpty then "-" else
+  String.ofList (a.foldr (fun b acc => hexDigit (b.toNat / 16) :: hexDigit (b.toNat % 16) :: acc) [])
+
+def item (a : Array UInt8) : String :=
+  if a.size ≤ 1024 then hexArr a else
+  let ad := adlerOuter a 0 a.size 1 0
+  let adler := ad.2.toNat * 65536 + ad.1.toNat
+  let crc := crc32Range Gen.C19.crc32IEEETable a 0 a.size
+  s!"#{a.size}:{hexN adler 8}:{hexN crc.toNat 8}:{hexN (fnv1a a).toNat 16}"
+
+def mix (s : UInt64) : UInt64 :=
+  let z := (s ^^^ (s >>> 30)) * 0xBF58476D1CE4E5B9
+  let z := (z ^^^ (z >>> 27)) * 0x94D049BB133111EB
+  z ^^^ (z >>> 31)
+
+/-- `seeded:SEED:LEN`: splitmix64 from state SEED, each output word gives 8 bytes little-endian. -/
+def seeded (seed : UInt64) (len : Nat) : Array UInt8 := Id.run do
+  let mut a : Array UInt8 := Array.mkEmpty len
+  let mut s := seed
+  let mut z : UInt64 := 0
+  for i in [0:len] do
+    if i % 8 == 0 then
+      s := s + 0x9E3779B97F4A7C15
+      z := mix s
+    a := a.push (z >>> (8 * (i % 8)).toUInt64).toUInt8
+  return a
+
+def parsePix (s : String) : Option (Array UInt8) :=
+  match s.splitOn ":" with
+  | ["seeded", sd, ln] => do
+    let sd ← sd.toNat?
+    let ln ← ln.toNat?
+    pure (seeded (UInt64.ofNat sd) ln)
+  | ["fill", x, ln] => do
+    let v ← fromHex x
+    let ln ← ln.toNat?
+    match v with
+    | [b] => pure (Array.replicate ln b)
+    | _ => none
+  | [h] => (fromHex h).map List.toArray
+  | _ => none
+
+structure St where
+  enc : Uncomp.Enc
+  last : Array (Array UInt8)
+
+def St.new : St := ⟨Uncomp.Enc.new, #[]⟩
+
+def statusWord : Uncomp.Status → String
+  | .ok => "ok"
+  | .invalidArgument => "invalid-argument"
+  | .unsupportedSize => "unsupported-size"
+  | .writeError => "write-error"
+  | .panic => "panic"
+
+def parseFail (l : List String) : Option (Option Nat) :=
+  match l with
+  | [] => some none
+  | [f] =>
+    match f.splitOn ":" with
+    | ["failat", k] => k.toNat?.map some
+    | _ => none
+  | _ => none
+
+def doEncode (st : St) (w h stride depth ct pix : String) (rest : List String) : St × String :=
+  match w.toInt?, h.toInt?, stride.toInt?, depth.toNat?, ct.toNat?, parsePix pix, parseFail rest with
+  | some w, some h, some stride, some depth, some ct, some pix, some failAt =>
+    if depth > 255 ∨ ct > 255 then (st, "bad-op") else
+    let enc := st.enc
+    let st := { st with enc := Uncomp.Enc.new }   -- drop the reference so that the buffer is updated in place
+    let r := Uncomp.encode enc (Uncomp.Writer.new failAt) pix w h stride (UInt8.ofNat depth) (UInt8.ofNat ct)
+    match r.status with
+    | .panic => ({ st with enc := { r.e with oob := false }, last := #[] }, "panic")
+    | s =>
+      let ws := r.w.writes
+      let out := ws.foldl (fun acc a => acc ++ " " ++ item a) s!"{statusWord s} {ws.size}"
+      ({ enc := r.e, last := ws }, out)
+  | _, _, _, _, _, _, _ => (st, "bad-op")
+
+def doSpecDecode (bs : List UInt8) : String :=
+  match Spec.decode bs with
+  | none => "none"
+  | some im => s!"some {im.width} {im.height} {im.depth} {im.colorType} {item im.pixels.toArray}"
+
+def step (st : St) (l : List String) : St × String :=
+  match l with
+  | ["reset"] => (St.new, "ok")
+  | "encode" :: w :: h :: stride :: depth :: ct :: pix :: rest => doEncode st w h stride depth ct pix rest
+  | ["specdecode", "last"] =>
+    (st, doSpecDecode (st.last.foldr (fun a acc => a.toList ++ acc) []))
+  | ["specdecode", h] =>
+    match fromHex h with
+    | some bs => (st, doSpecDecode bs)
+    | none => (st, "bad-op")
+  | _ => (st, "bad-op")
+
+end C19Driver
+
+def main : IO Unit := run C19Driver.St.new C19Driver.step
